@@ -354,8 +354,16 @@ P8 = (("a", "int", 3), ("b", "Optional[str]", "s"), ("c", "bool", False), ("d", 
 
 
 def _k8(lo, hi):
-    def body(mask, dmask, x):
+    def body(mask, dsel, x):
         import json
+
+        dmask = 0
+        if dsel == 1:
+            dmask = 255
+        elif dsel == 2:
+            dmask = 0b10101010
+        elif dsel == 3:
+            dmask = 0b01010101
 
         from cdd.json_schema.emit import json_schema as emit
         from cdd.json_schema.parse import json_schema as parse
@@ -398,9 +406,9 @@ def _k8(lo, hi):
 
 
 for _lo in range(0, 256, 32):
-    ob("C06", "K8.subset.m%03d" % _lo, {"mask": R(_lo, _lo + 31), "dmask": R(0, 255), "x": PR}, tier="quick" if _lo in (0, 96, 224) else "thorough", T=900, tpath=60,
+    ob("C06", "K8.subset.m%03d" % _lo, {"mask": R(_lo, _lo + 31), "dsel": R(0, 3), "x": PR}, tier="quick" if _lo in (0, 96, 224) else "thorough", T=900, tpath=60,
        funcs=["cdd.json_schema.emit.json_schema", "cdd.json_schema.parse.json_schema", EMIT, PARSE],
-       bound="ANY subset (mask %d..%d of 0..255) of the eight parameters %r, each default present or absent per a second 8-bit mask, a symbolic printable character in two descriptions: "
+       bound="ANY subset (mask %d..%d of 0..255) of the eight parameters %r, defaults all absent / all present / on the odd / on the even parameters, a symbolic printable character in two descriptions: "
              "properties in order, per-property meta typing, required == non-Optional names, parse(emit(ir)) gives back names, order, types (Literal members as a set), defaults, descriptions"
              % (_lo, _lo + 31, [(n, t) for n, t, _ in P8]))(_k8(_lo, _lo + 31))
 
